@@ -375,6 +375,26 @@ impl<const C: usize, const H: usize> Handle for P24<C, H> {
 }
 handle_common!(P24);
 
+/// a large stateful handle (240 bytes): the chunk header takes more than half of a minimum-size chunk
+pub struct B240<const C: usize, const H: usize = 1>([u64; 30]);
+impl<const C: usize, const H: usize> B240<C, H> {
+    fn check(&self) {
+        if self.0.iter().enumerate().any(|(i, w)| *w != MAGIC ^ i as u64) {
+            with_ctx(C, |c| c.error("C05/handle-corrupted: allocator handle B240 was overwritten".to_string()));
+        }
+    }
+}
+impl<const C: usize, const H: usize> Handle for B240<C, H> {
+    const HOME: usize = H;
+    const NAME: &'static str = "B240";
+    const CTX: usize = C;
+    fn new() -> Self {
+        created(C);
+        B240(std::array::from_fn(|i| MAGIC ^ i as u64))
+    }
+}
+handle_common!(B240);
+
 /// over-aligned handles: header alignment above 16
 #[repr(align(32))]
 pub struct O32<const C: usize, const H: usize = 1>(u64);
